@@ -11,7 +11,7 @@ from .. import build, tlc, run, idb
 
 ACC = {"pub": "public", "prot": "protected", "priv": "private"}
 BASEKW = {"base_pub": "public", "base_prot": "protected", "base_priv": "private", "base_vpub": "public virtual"}
-SUFFIX = {"user": ";", "default": " = default;", "delete": " = delete;"}
+SUFFIX = {"user": ";", "default": " = default;", "delete": " = delete;", "pure": " = 0;"}
 BATCH = 250
 
 
